@@ -641,6 +641,14 @@ TTL_DOCS = [
      [(_I("http://example.org/pipe1"), TYPE, _I("http://example.org/Pipe")),
       (_I("http://example.org/pipe1"), "http://example.org/len", _L("6", XS + "string")),
       (_I("http://example.org/pipe2"), TYPE, _I("http://example.org/Pipe"))]),
+    ("a comment mark inside a literal and a real trailing comment on the same line",
+     '@prefix ex: <http://example.org/> .\n'
+     'ex:a ex:q "tag #1 inside" ; # a real comment, with a # of its own\n'
+     '   ex:p ex:b .\n'
+     'ex:c ex:q "only #inside" .\n',
+     [(_I("http://example.org/a"), "http://example.org/q", _L("tag #1 inside", XS + "string")),
+      (_I("http://example.org/a"), "http://example.org/p", _I("http://example.org/b")),
+      (_I("http://example.org/c"), "http://example.org/q", _L("only #inside", XS + "string"))]),
     ("a predicate list that ends with '; .' on its own line",
      '@prefix ex: <http://example.org/> .\n'
      'ex:a ex:p ex:b ;\n'
@@ -675,6 +683,17 @@ TTL_DOCS = [
      [(_I("http://example.org/doc1"), "http://example.org/p", _I("http://example.org/doc2")),
       (_I("http://example.org/doc1"), "http://example.org/n", _L("5", XS + "integer")),
       (_I("http://example.org/doc1"), "http://example.org/m", _L("-7", XS + "integer"))]),
+    ("@base: absolute IRIs of any scheme stay as they are, relative nodes and relative datatypes are resolved",
+     '@base <http://example.org/data/> .\n'
+     '@prefix ex: <http://example.org/> .\n'
+     '<doc1> ex:p <https://secure.org/x> .\n'
+     '<https://secure.org/y> ex:q "1"^^<https://secure.org/dt> .\n'
+     '<doc1> ex:r "21.5"^^<temperature> .\n'
+     '<doc1> ex:s "7"^^<http://other.org/dt> .\n',
+     [(_I("http://example.org/data/doc1"), "http://example.org/p", _I("https://secure.org/x")),
+      (_I("https://secure.org/y"), "http://example.org/q", _L("1", "https://secure.org/dt")),
+      (_I("http://example.org/data/doc1"), "http://example.org/r", _L("21.5", "http://example.org/data/temperature")),
+      (_I("http://example.org/data/doc1"), "http://example.org/s", _L("7", "http://other.org/dt"))]),
     ("outside the dialect: literal glued to the final dot", '@prefix ex: <http://example.org/> .\nex:a ex:p "x".\n', "raise"),
     ("outside the dialect: a literal as subject", '@prefix ex: <http://example.org/> .\n"x" ex:p ex:o .\n', "raise"),
     ("outside the dialect: undeclared prefix", 'ex:a ex:p ex:o .\n', "raise"),
@@ -704,6 +723,13 @@ NT_DOCS = [
      [(_I("http://e/s"), "http://e/p", _L("1^^2 ok", XS + "string")),
       (_I("http://e/s"), "http://e/q", _L("a@b c", XS + "string")),
       (_I("http://e/s"), "http://e/r", _L("has > and < and _:x and . inside", XS + "string"))], 0),
+    ("markers inside the lexical form of a typed literal (the datatype IRI is what follows the closing quotes)",
+     '<http://e/s> <http://e/p> "x > 3"^^<http://www.w3.org/2001/XMLSchema#string> .\n'
+     '<http://e/s> <http://e/q> "<p>t</p>"^^<http://www.w3.org/1999/02/22-rdf-syntax-ns#HTML> .\n'
+     '<http://e/s> <http://e/r> "a <b> c"@en .\n',
+     [(_I("http://e/s"), "http://e/p", _L("x > 3", XS + "string")),
+      (_I("http://e/s"), "http://e/q", _L("<p>t</p>", RDFNS + "HTML")),
+      (_I("http://e/s"), "http://e/r", _L("a <b> c", RDFNS + "langString"))], 0),
 ]
 
 
